@@ -154,20 +154,15 @@ Definition wf_kernel0 (m : mapping) : bool := wf_header m && wf_body (m_lines m)
 (* [probe p]: what the caller's os.stat(p) answers -- the only outside fact consulted, and only
    for names that end in " (deleted)" *)
 Definition is_exists (r : probe_res) : bool := match r with PExists => true | _ => false end.
-Definition is_denied (r : probe_res) : bool := match r with PDenied => true | _ => false end.
 Definition marked (m : mapping) : bool :=
   match m_path m with [] => false | _ => suffixb deleted_sfx (shown_path m) end.
-(* the probe gives an answer -- "there" or "not there", the latter for whatever errno
-   (ENOENT, ENOTDIR, ENAMETOOLONG, ELOOP, EIO, EOVERFLOW ...) -- rather than a permission error *)
-Definition probe_answers (probe : bytes -> probe_res) (m : mapping) : bool :=
-  negb (marked m) || negb (is_denied (probe (shown_path m))).
 (* the kernel's " (deleted)" marker is readable as such: an unlinked file's marked name is
    not the name of an existing file, and a live file whose shown name ends so exists *)
 Definition marker_ok (probe : bytes -> probe_res) (m : mapping) : bool :=
   negb (marked m)
   || (if m_deleted m then negb (is_exists (probe (shown_path m))) else is_exists (probe (shown_path m))).
 Definition wf_kernel (probe : bytes -> probe_res) (m : mapping) : bool :=
-  wf_kernel0 m && marker_ok probe m && probe_answers probe m.
+  wf_kernel0 m && marker_ok probe m.
 
 
 (* a kernel prints the same set of lines for every mapping (which lines depends on its
